@@ -3,10 +3,12 @@
 pub mod c01;
 pub mod c02;
 pub mod c03;
+pub mod c04;
 pub mod c05;
 pub mod c07;
 pub mod c12;
 pub mod c13;
+pub mod c14;
 pub mod c18;
 pub mod common;
 pub mod gcsearch;
@@ -29,9 +31,11 @@ pub fn registry() -> Vec<PropertyDef> {
         PropertyDef { id: "C01", run: c01::run, replay: c01::replay, level: "exploration" },
         PropertyDef { id: "C02", run: c02::run, replay: c02::replay, level: "exploration" },
         PropertyDef { id: "C03", run: c03::run, replay: c03::replay, level: "exploration" },
+        PropertyDef { id: "C04", run: c04::run, replay: c04::replay, level: "exploration" },
         PropertyDef { id: "C05", run: c05::run, replay: c05::replay, level: "exploration" },
         PropertyDef { id: "C07", run: c07::run, replay: c07::replay, level: "fault_enumeration" },
         PropertyDef { id: "C12", run: c12::run, replay: c12::replay, level: "exploration" },
+        PropertyDef { id: "C14", run: c14::run, replay: c14::replay, level: "exploration" },
         PropertyDef { id: "C18", run: c18::run, replay: c18::replay, level: "exploration" },
         PropertyDef { id: "C13", run: c13::run, replay: c13::replay, level: "fault_enumeration" },
     ]
